@@ -144,7 +144,7 @@ def run_handshake_boundary(ctx):
 def run(ctx):
     ctx.rule = ("byte streams mixing single, fragmented, control, close and illegal frames; schedules: all 2^(n-1) partitions of "
                 "streams <= 11 (14) bytes, byte-wise delivery, a timeout (x1, x2) at every byte position of streams <= 40 (60) "
-                "bytes, random partitions with random timeouts; caller repeats the call after each TIMEOUT; plus frames glued to "
+                "bytes, random partitions with random timeouts, 30 % of the timeout schedules on a non-blocking socket (timeout 0, EAGAIN); caller repeats the call after each TIMEOUT; plus frames glued to "
                 "the 101 response through the real connect(). non-trivial = more than one chunk or a timeout")
     rnd = ctx.rng("sched")
     sessions, meta = [], []
@@ -156,7 +156,10 @@ def run(ctx):
         gid = len(meta)
         for ev in [[("chunk", stream)]] + scheds:
             ops = [api] * (base_calls + ntimeouts(ev))
-            sessions.append(({"keys": [b"\xa1\xb2\xc3\xd4"] * 8, "tail": "eof"}, ev, ops))
+            cfg = {"keys": [b"\xa1\xb2\xc3\xd4"] * 8, "tail": "eof"}
+            if ntimeouts(ev) and rnd.random() < 0.3:
+                cfg["to"] = 0          # a non-blocking socket: "no data now" is BlockingIOError(EAGAIN), not socket.timeout
+            sessions.append((cfg, ev, ops))
             meta.append((gid, frames, api, ev))
     res = rx.run_sessions(ctx, "session:segmentation", sessions)
     base = {}
